@@ -240,6 +240,9 @@ def register(hub, props=("C13", "C15"), pool=None):
         if short not in INDEPENDENT_RESULT or not isinstance(res, fd.FlodymArray):
             return
         sources = [(i, a) for i, a in enumerate(call.args) if isinstance(a, fd.FlodymArray)]
+        for i, a in list(enumerate(call.args)) + [(k, v) for k, v in call.kwargs.items()]:
+            if isinstance(a, np.ndarray) and a.size and isinstance(res.values, np.ndarray) and res.values.size and np.shares_memory(res.values, a):
+                rec.violation(M15I, f"{short}:result-shares-memory-with-an-ndarray-argument", {"op": op, "arg": str(i), "shape": list(a.shape)}, prop="C15")
         rec.event(M15I, sig=f"{short}|{len(sources)}|{tuple(res.dims.letters)}", cls=f"independence|{short}")
         for i, s in sources:
             if res is s:
